@@ -659,8 +659,11 @@ fn ledger_preds(a: &Analysis, v: &mut Vec<Viol>, f: &mut Feat) {
                     detail: format!("zero-sized payloads: {} created, {} destroyed", created, total),
                 });
             } else if total < created {
+                // values are indistinguishable: if every send of the program succeeded, the
+                // missing one is a successfully sent value that vanished
+                let all_sent_ok = a.ops.iter().filter(|o| o.sent.is_some()).all(|o| send_out(o) == SendOut::Success);
                 v.push(Viol {
-                    pred: "leak",
+                    pred: if all_sent_ok { "lost_value" } else { "leak" },
                     op: None,
                     detail: format!("zero-sized payloads: {} created, {} destroyed", created, total),
                 });
